@@ -33,6 +33,7 @@ type scen struct {
 	Mode   string   `json:"mode"`             // own: later messages carry the equivocator's own echo hash; tailored: each recipient gets the hash it expects; nil: no hash
 	Proto  string   `json:"proto,omitempty"`  // real protocol under a twin equivocator (real.go); empty: vproto
 	Search string   `json:"search,omitempty"` // full | dev<k> (real protocols)
+	Reach  string   `json:"reach,omitempty"`  // split: each honest party hears one instance; both: the parties of group 2 hear both instances
 }
 
 var ids = []party.ID{"a", "b", "c", "d"}
